@@ -272,7 +272,7 @@ func (c *conds) Update(ctx context.Context, o *proxyv1alpha1.RateLimitCondition,
 		case o.ResourceVersion != "" && o.ResourceVersion != old.ResourceVersion:
 			err = errors.NewConflict(gr, o.Name, fmt.Errorf("stale resourceVersion"))
 		default:
-			res, err = s.inner.Update(ctx, s.stamp(o), opts)
+			res, err = s.inner.Update(ctx, s.stamp(asServedUpdate(o, old)), opts)
 		}
 	}
 	if fault != "ok" {
@@ -297,7 +297,7 @@ func (c *conds) Create(ctx context.Context, o *proxyv1alpha1.RateLimitCondition,
 		} else if _, gerr := s.inner.Get(ctx, o.Name, metav1.GetOptions{}); gerr == nil {
 			err = errors.NewAlreadyExists(gr, o.Name)
 		} else {
-			res, err = s.inner.Create(ctx, s.stamp(o), opts)
+			res, err = s.inner.Create(ctx, s.stamp(asServedCreate(o)), opts)
 		}
 	}
 	if fault != "ok" {
